@@ -13,7 +13,7 @@ import threading
 
 from . import refcodec as R, svc, tcpnet
 
-PIPELINED = [150, 400, 1000]
+PIPELINED = [150, 2500, 1000, 400]        # (more than a thousand unread indications as well)
 
 
 def run_case(res, case, attempt=0):
